@@ -7,6 +7,7 @@
                 precede it are executed first and those that follow it are executed
                 eagerly (the real thread runs on to its next labelled operation)
           raw   every token is exactly one step of the model (visible or not)
+          exp   like val, but the answer is the raw token sequence that was executed
    script requests separated by '/':  <expect 0|1><close 0|1><nobody 0|1>:<w1.w2...|->   ('-' = no request)
    tok    i:<env> (I/O thread) | w<k>:<env> (worker k);  env:  - | s<rs><ws> | r<k>.<frag> | e | n<len>.<k> | q (an access of self.request: answered
           'skip' unless the thread is at the one such access the model represents)
@@ -128,10 +129,11 @@ let normalise (p : params) (st : state) : state =
 let invisible (st : state) t =
   match t with None -> io_invisible st.io | Some k -> wk_invisible (st.wk (nat_of_int k))
 
+let inv_count = ref 0
 let rec run_invisible (p : params) (st : state) t (fuel : int) : state =
   if fuel > 0 && invisible st t then
     match step p st (mk_choice t ENone) with
-    | Some (st', _) -> run_invisible p (normalise p st') t (fuel - 1)
+    | Some (st', _) -> incr inv_count; run_invisible p (normalise p st') t (fuel - 1)
     | None -> st
   else st
 
@@ -152,22 +154,32 @@ let handle (words : string list) : string =
       let out = Buffer.create 4096 in
       let first = ref true in
       let dead = ref false in
+      let tname t = match t with None -> "i" | Some k -> "w" ^ string_of_int k in
+      let emit_inv t = for _ = 1 to !inv_count do Buffer.add_string out (tname t ^ ":- ") done; inv_count := 0 in
+      let vmode = (mode = "val" || mode = "exp") in
       List.iter (fun tk ->
-        if not !first then Buffer.add_char out '|';
+        if mode <> "exp" && not !first then Buffer.add_char out '|';
         first := false;
-        if !dead then Buffer.add_string out "X" else begin
+        if !dead then (if mode <> "exp" then Buffer.add_string out "X") else begin
           let (t, e) = parse_tok tk in
-          if mode = "val" then st := run_invisible p !st t 100000;
+          inv_count := 0;
+          if vmode then st := run_invisible p !st t 100000;
+          if mode = "exp" then emit_inv t;
           let is_q = (String.length tk > 0 && tk.[String.length tk - 1] = 'q') in
-          if is_q && not (expects_request_load !st t) then Buffer.add_string out "skip" else
+          if is_q && not (expects_request_load !st t) then (if mode <> "exp" then Buffer.add_string out "skip") else
           match step p !st (mk_choice t e) with
-          | None -> Buffer.add_string out "X"; if mode = "val" then dead := true
+          | None -> (if mode <> "exp" then Buffer.add_string out "X"); if vmode then dead := true
           | Some (st', ls) ->
               let st' = normalise p st' in
-              let st' = if mode = "val" then run_invisible p st' t 100000 else st' in
+              inv_count := 0;
+              let st' = if vmode then run_invisible p st' t 100000 else st' in
               st := st';
-              Buffer.add_string out (labels_s ls); Buffer.add_char out ';';
-              Buffer.add_string out (state_s p st')
+              if mode = "exp" then begin
+                Buffer.add_string out ((if is_q then tname t ^ ":-" else tk) ^ " "); emit_inv t
+              end else begin
+                Buffer.add_string out (labels_s ls); Buffer.add_char out ';';
+                Buffer.add_string out (state_s p st')
+              end
         end) toks;
       if toks = [] then state_s p !st else Buffer.contents out
   | _ -> "ERR usage"
